@@ -7,6 +7,8 @@ CFG = dict(
         "Inst.gen_dsub_bounded: the stored delta fits a u64",
         "Inst.gen_varint_ok: varint constants (0x7f, 7, 0x80, shift guard 64)",
         "Inst.gen_v2_ok: encode_v2 checks the uncompressed size against max_frame_length before compressing",
+        "Inst.gen_v2_frame_ok: encode_v2 checks the frame content (flags + payload) against max_frame_length",
+        "Inst.gen_validator_ok: EmbeddingValidator checks equal lengths, every position < dimension, strictly ascending positions",
         "Inst.gen_flags_ok: frame flag bytes and MAX_DECOMPRESSED_SIZE",
     ],
     crate="nvh_c20",
@@ -15,19 +17,19 @@ CFG = dict(
         "varint": ("varint_case", "check_varint"), "vdec": ("vdec_case", "check_vdec"),
         "delta": ("delta_case", "check_delta"), "rle": ("rle_case", "check_rle"),
         "sparse": ("sparse_case", "check_sparse"), "frame": ("frame_case", "check_frame"),
-        "split": ("split_case", "check_split"),
+        "split": ("split_case", "check_split"), "valid": ("valid_case", "check_valid"),
     },
     known_classes={},
     shard=150,
     rule="seeded values per codec (extreme/boundary u64, sorted/unsorted/duplicate id lists, f32 specials as bit patterns, Message variants with limits chosen around their serialized and compressed sizes, arbitrary bytes for decoders) run through the real functions and through the Gallina model",
     trusted_base=COMMON_TB + [
         "premises (Section hypotheses of the frame theorems), exercised by the harness on every generated Message: bitcode::deserialize(serialize(m)) = m, lz4 decompress(compress(d)) = d",
-        "modelled, not verified: Vec/usize as list/N; SparseVector::from_dense/to_dense only (threshold variants, arithmetic and deserialised-but-unvalidated sparse vectors are outside the model); WAL record framing and snapshot header codecs are proved under C02/C10/C13 (Common/WalFormat) and C07; the async read_frame I/O loop is reduced to split_frame on a byte string",
+        "modelled, not verified: Vec/usize as list/N; SparseVector::from_dense/to_dense/get only (threshold variants and arithmetic are outside the model); EmbeddingValidator's magnitude test is a refusal oracle (floating point); WAL record framing and snapshot header codecs are proved under C02/C10/C13 (Common/WalFormat) and C07; the async read_frame I/O loop is reduced to split_frame on a byte string",
         "not covered by a theorem (tested only): tensor-train reconstruction error bound (lossy; no Coq theorem about SVD truncation), bitcode decoding of arbitrary bytes (fuzzed for panics only), allocation sizes requested by RLE decode (no declared limit exists)",
     ],
     assumptions=["-0.0 read back as +0.0 from sparse storage is counted as exact (IEEE-equal); every other bit pattern must be identical"],
 )
 MANIFEST = dict(
-    text="Round-trip theorems for all inputs: varint (every u64 list), delta/compress_ids with the arithmetic regenerated from delta.rs (every list, unsorted and duplicates included), RLE (+ length), sparse vector (bit patterns), v1/v2 network frames through split+decode for any inverse serializer/compressor pair, and safety of the varint decoder and frame splitter on arbitrary bytes (bounded output, bounded buffering). The model is compared with the real functions on seeded cases per codec; decoders are fuzzed (truncation, bit flips, hostile lz4 size prefixes) for panics.",
+    text="Round-trip theorems for all inputs: varint (every u64 list), delta/compress_ids with the arithmetic regenerated from delta.rs (every list, unsorted and duplicates included), RLE (+ length), sparse vector (bit patterns), v1/v2 network frames through split+decode for any inverse serializer/compressor pair, safety of the varint decoder and frame splitter on arbitrary bytes (bounded output, bounded buffering), and: a sparse vector that EmbeddingValidator accepts (checks regenerated from the source) is indexed in range by to_dense/get, whatever the deserialiser produced. The model is compared with the real functions on seeded cases per codec; decoders are fuzzed (truncation, bit flips, hostile lz4 size prefixes) for panics.",
     note="Trusted: Coq kernel, rs2v.py + gen_C20.py (delta operators, varint constants, presence of the encode_v2 size check, flag constants), harness + driver. bitcode/lz4 are premises exercised on every generated message. Lossy tensor-train bound is not a theorem (partial).",
 )
